@@ -111,6 +111,7 @@ pub struct ExecResult {
     pub steps: usize,
     pub error: Option<String>,
     pub schedule: Vec<String>,
+    pub diverged: bool,
 }
 
 struct Appended {
@@ -306,6 +307,7 @@ pub fn run_one(sc: &Scenario, prefix: &[usize], props: &[&str]) -> ExecResult {
     let mut schedule: Vec<String> = vec![];
     let mut findings: Vec<Finding> = vec![];
     let mut error: Option<String> = None;
+    let mut diverged: Option<String> = None;
     let mut last: Option<Who> = None;
     let mut obs = Observer::new(&ctx_ids);
     let mut probed = false;
@@ -389,16 +391,19 @@ pub fn run_one(sc: &Scenario, prefix: &[usize], props: &[&str]) -> ExecResult {
         }
         let i = points.len();
         let choice = if i < prefix.len() { prefix[i] } else { 0 };
-        if choice >= cands.len() {
-            error = Some(format!(
+        if choice >= cands.len() && diverged.is_none() {
+            // the subject did not repeat its behaviour under an identical schedule prefix; the
+            // execution is still a legal one: finish it with default choices and let the oracles
+            // decide (a divergence without any finding is reported as a harness error)
+            diverged = Some(format!(
                 "replay divergence at point {}: choice {} of {} enabled {:?}",
                 i,
                 choice,
                 cands.len(),
                 cands.iter().map(|(w, op)| format!("{}@{}", label(w), op)).collect::<Vec<_>>()
             ));
-            break;
         }
+        let choice = if diverged.is_some() { 0 } else { choice };
         points.push(PointRec {
             enabled: cands.iter().map(|(w, op)| format!("{}@{}", label(w), op)).collect(),
             chosen: choice,
@@ -487,6 +492,17 @@ pub fn run_one(sc: &Scenario, prefix: &[usize], props: &[&str]) -> ExecResult {
         }
     }
 
+    let was_diverged = diverged.is_some();
+    if let Some(d) = diverged {
+        if findings.is_empty() {
+            error = Some(d);
+        } else {
+            for f in findings.iter_mut() {
+                f.msg.push_str(&format!(" [the execution left the recorded schedule prefix: {}]", d));
+            }
+        }
+    }
+
     // --- teardown -------------------------------------------------------------------------
     xs::verif::set_clock(None);
     ctl.release_all();
@@ -509,6 +525,7 @@ pub fn run_one(sc: &Scenario, prefix: &[usize], props: &[&str]) -> ExecResult {
         steps: nsteps,
         error,
         schedule,
+        diverged: was_diverged,
     }
 }
 
@@ -1095,6 +1112,7 @@ pub fn worker(prop: &str) {
             "steps": r.steps,
             "error": r.error,
             "schedule": r.schedule,
+            "diverged": r.diverged,
         })
     });
 }
@@ -1192,6 +1210,9 @@ pub fn run(prop: &str, tier: &str, report: &mut Report) {
                     replay: json!({"engine": "e2", "prop": prop, "scenario": sc, "prefix": j.prefix, "schedule": r["schedule"]}),
                 });
             }
+            if r["diverged"].as_bool() == Some(true) {
+                continue;
+            }
             // children: deviate at every point from len(prefix) on
             let mut pre_cost = j.cost;
             for (i, p) in points.iter().enumerate() {
@@ -1269,6 +1290,13 @@ pub fn replay(v: &Value) -> i32 {
     let props = owned_props(&prop);
     let r1 = run_one(&sc, &prefix, &props);
     let r2 = run_one(&sc, &prefix, &props);
+    if r1.error.is_none() && r2.error.is_none() && !r1.findings.is_empty() && !r2.findings.is_empty() && (r1.diverged || r2.diverged) {
+        println!("note: the subject does not repeat its behaviour under this schedule; both replays violate the property");
+        for f in &r1.findings {
+            println!("finding {}: {}", f.kind, f.msg);
+        }
+        return 1;
+    }
     if r1.error.is_some() || r1.outcome != r2.outcome || r1.schedule != r2.schedule {
         eprintln!("HARNESS ERROR: replay not deterministic: {:?} / {} vs {}", r1.error, r1.outcome, r2.outcome);
         return 2;
